@@ -11,7 +11,7 @@ R(r) == [t |-> r[1], n |-> r[2], v |-> r[3], key |-> r[4], conf |-> r[5]]
 Rep(l) == [i \in 1..Len(l) |-> R(l[i])]
 Q(q) == [recips |-> [i \in 1..Len(q.recips) |-> [id |-> q.recips[i][1], v |-> q.recips[i][2]]], fee |-> q.fee, minconf |-> q.minconf,
          inkeys |-> {q.inkeys[i] : i \in 1..Len(q.inkeys)}, sweep |-> q.sweep, feemin |-> q.feemin, feemax |-> q.feemax,
-         acct |-> q.acct, above |-> q.above, nexplicit |-> Len(q.explicit), explicit |-> {<<q.explicit[i][1], q.explicit[i][2]>> : i \in 1..Len(q.explicit)}]
+         acct |-> q.acct, above |-> q.above, named |-> ("named" \in DOMAIN q /\ q.named), nexplicit |-> Len(q.explicit), explicit |-> {<<q.explicit[i][1], q.explicit[i][2]>> : i \in 1..Len(q.explicit)}]
 X(x) == [ins |-> [i \in 1..Len(x.ins) |-> [t |-> x.ins[i][1], n |-> x.ins[i][2], v |-> x.ins[i][3]]],
          outs |-> [i \in 1..Len(x.outs) |-> [v |-> x.outs[i][1], key |-> x.outs[i][2], rid |-> x.outs[i][3]]],
          fee |-> x.fee, vsize |-> x.vsize]
